@@ -14,6 +14,7 @@ import (
 	"testing"
 
 	"github.com/go-spatial/geom"
+	"github.com/pdok/texel/snap"
 	"pgregory.net/rapid"
 
 	"verifharness/gen"
@@ -23,7 +24,9 @@ import (
 
 var specC07 = report.Spec{Property: "C07", Check: "C07",
 	Rule: "determinism: arbitrary polygons (as C05), valid polygons with 0-3 holes (as C01) and, 1 case in 150 (thorough: 400), a valid star shaped polygon of 520-2600 (thorough: 4000) vertices several hundred pixels wide x grids x 1-4 ids given in random order x flags. Oracle (metamorphic): (a) three in-process repetitions (GOMAXPROCS as started, 1 and 8) return deeply equal maps, what a call returned does not change while another (shifted) polygon is snapped afterwards, and a digest of the output of up to 3000 multi-level/multi-ring cases per run is recomputed by a second process (Go randomises map iteration per range statement and per process) and must be equal; " +
-		"(b) valid polygons: for every non-empty subset of rings given in the opposite direction the output is deeply equal (rings without orientation - one or two vertices or exactly zero area - may come back in either direction); (c) valid polygons: toggling ReverseWindingOrder yields the same tile matrices, polygons and rings in the same positions, each ring with >= 3 vertices being the reverse (as a cyclic sequence) of its counterpart, 1-2 vertex rings equal as sets. " +
+		"(b) valid polygons: for every non-empty subset of rings given in the opposite direction the output is deeply equal (rings without orientation - one or two vertices or exactly zero area - may come back in either direction); (c) valid polygons: toggling ReverseWindingOrder yields the same tile matrices, polygons and rings in the same positions, each ring with >= 3 vertices being the reverse (as a cyclic sequence) of its counterpart, 1-2 vertex rings equal as sets; " +
+		"(d) the same polygon with all rings laid out as consecutive windows of one coordinate buffer (spare capacity of each ring reaching into the next) returns deeply equal geometry and leaves the buffer, including sentinel slots behind the last ring, untouched; " +
+		"(e) 1 case in 8: 24 repetitions spread over 6 goroutines running at the same time (valid polygons: alternating with the all-rings-reversed writing) return the geometry of the call that ran alone. " +
 		"Non-trivial: >= 2 ids, or >= 2 rings, or the result has more polygons/rings than the input (a split). Distinct by case content.",
 	Assumptions: []string{"the second process is the same test binary started by the check itself with the recorded cases"}}
 
@@ -50,10 +53,19 @@ func genC07(t *rapid.T) C07Case {
 	if rapid.IntRange(0, report.Scale(150, 400)).Draw(t, "big") == 37 { // (rapid favours small values: pick one from the middle)
 		return C07Case{SnapCase: bigStarCase(t), Valid: true}
 	}
+	var c C07Case
 	if rapid.Bool().Draw(t, "validPolygon") {
-		return C07Case{SnapCase: drawValidCase(t, validOpts{maxHoles: 3, collapseBias: rapid.Bool().Draw(t, "bias")}, gen.AnyGrid, 4), Valid: true}
+		c = C07Case{SnapCase: drawValidCase(t, validOpts{maxHoles: 3, collapseBias: rapid.Bool().Draw(t, "bias")}, gen.AnyGrid, 4), Valid: true}
+	} else {
+		c = C07Case{SnapCase: drawArbCase(t, gen.AnyGridWide, 4, 40)}
 	}
-	return C07Case{SnapCase: drawArbCase(t, gen.AnyGridWide, 4, 40)}
+	if rapid.IntRange(0, 7).Draw(t, "concurrent") == 3 {
+		if c.Extra == nil {
+			c.Extra = map[string]int64{}
+		}
+		c.Extra["concurrent"] = 1
+	}
+	return c
 }
 
 func deepCopyOut(out map[int][]geom.Polygon) map[int][]geom.Polygon {
@@ -179,6 +191,81 @@ func oracleC07(c C07Case) (o report.Outcome) {
 	}
 	if c.Shape == "big-star" {
 		o.Label("big ring (>= 520 vertices)")
+	}
+	// (d) the way the polygon is laid out in memory is part of how it is written down: all rings as consecutive windows of one
+	// buffer (each ring's spare capacity reaches into the next ring) must give the same result and leave the buffer as it was
+	if len(c.Poly) > 0 {
+		total := 0
+		for _, r := range c.Poly {
+			total += len(r)
+		}
+		buf := make([][2]float64, 0, total+3)
+		flat := make(geom.Polygon, len(c.Poly))
+		for i, r := range c.Poly {
+			start := len(buf)
+			buf = append(buf, r...)
+			flat[i] = buf[start:len(buf)] // capacity runs on to the end of buf
+		}
+		sentinel := [2]float64{-7.25e300, 7.25e300}
+		buf = buf[:cap(buf)]
+		for i := total; i < len(buf); i++ {
+			buf[i] = sentinel
+		}
+		before := append([][2]float64{}, buf...)
+		var res SnapResult
+		func() {
+			defer func() {
+				if e := recover(); e != nil {
+					res.Panic = e
+				}
+			}()
+			res.Out = snap.SnapPolygon(flat, a.g.TMS, append([]int{}, c.IDs...), c.config())
+		}()
+		if res.Panic != nil || !reflect.DeepEqual(first.Out, res.Out) {
+			o.Failf([]string{"memory-layout"}, "the same polygon with its rings laid out in one shared buffer returns different geometry: separate slices %.600s, shared buffer %.600s (panic %v)", fmt.Sprint(first.Out), fmt.Sprint(res.Out), res.Panic)
+			return o
+		}
+		if !reflect.DeepEqual(before, buf) {
+			o.Failf([]string{"input-modified"}, "SnapPolygon wrote into the caller's coordinate buffer: before %.600s, after %.600s", fmt.Sprint(before), fmt.Sprint(buf))
+			return o
+		}
+		for i, r := range c.Poly {
+			if len(flat[i]) != len(r) {
+				o.Failf([]string{"input-modified"}, "SnapPolygon changed the caller's polygon: ring %d had %d vertices, has %d", i, len(r), len(flat[i]))
+				return o
+			}
+		}
+	}
+	// (e) repetitions that overlap in time (several goroutines of one process) are repetitions too
+	if c.Extra["concurrent"] == 1 {
+		o.Label("concurrent repetitions")
+		variants := [][][][2]float64{c.Poly}
+		if c.Valid && len(c.Poly) > 0 { // the same polygon with every ring given in the opposite direction
+			rev := make([][][2]float64, len(c.Poly))
+			for i, r := range c.Poly {
+				rev[i] = kernel.Reversed(r)
+			}
+			variants = append(variants, rev)
+		}
+		const workers, reps = 6, 4
+		results := make([]SnapResult, workers*reps)
+		var wg sync.WaitGroup
+		for w := 0; w < workers; w++ {
+			wg.Add(1)
+			go func(w int) {
+				defer wg.Done()
+				for r := 0; r < reps; r++ {
+					results[w*reps+r] = snapWith(c.SnapCase, variants[(w+r)%len(variants)], c.IDs, c.config())
+				}
+			}(w)
+		}
+		wg.Wait()
+		for i, res := range results {
+			if res.Panic != nil || !sameGeometry(a, first.Out, res.Out) {
+				o.Failf([]string{"concurrent"}, "a repetition running at the same time as others (goroutine %d, repetition %d) returned different geometry: alone %.600s, concurrently %.600s (panic %v)", i/reps, i%reps, fmt.Sprint(first.Out), fmt.Sprint(res.Out), res.Panic)
+				return o
+			}
+		}
 	}
 	// what was returned belongs to the caller: it must not change when another polygon is snapped afterwards
 	if len(c.Poly) > 0 && len(c.Poly[0]) > 0 {
